@@ -205,6 +205,8 @@ class _Stripper(ast.NodeTransformer):
                 if fld == "body" and not cleaned:
                     cleaned = [ast.Pass()]
                 setattr(node, fld, cleaned)
+        for h in getattr(node, "handlers", []) or []:
+            self.generic_visit(h)
         return node
 
 
